@@ -1,4 +1,5 @@
 import BB.Gen.Digest
+import BB.Gen.KeyFormat
 /-!
 # Model of `pkg/digest`: packed digests, resource-name codecs, digest sets (C20)
 
@@ -332,6 +333,18 @@ def getDigestFunction (v : Str) : Option (BareFn × Str) :=
   | none => none
   | some u => (getBareFunction u.fn 0).map fun f => (f, instOf v u)
 
+/-- `InstanceName.GetDigestFunction(e, fallbackHashLength)` for an arbitrary `int32` value: only
+the enumeration value (or, for `UNKNOWN`, the fallback length) decides; negative values match no
+case of the switch. Returns the function's `GetEnumValue()`. -/
+def getDigestFunctionEnum (e : Int) (fallback : Nat) : Except Err Nat :=
+  if e < 0 then .error .unknownFunction
+  else match getBareFunction e.toNat fallback with
+    | none => .error .unknownFunction
+    | some f => .ok f.enum
+
+/-- `KeyFormat.Combine` (regenerated from the source). -/
+def combineKeyFormat (a b : Nat) : Nat := BB.Gen.KeyFormat.combine a b
+
 /-- `GetKey(format)`; `withInstance = true` is `KeyWithInstance`. -/
 def getKey (v : Str) (withInstance : Bool) : Option Str :=
   if withInstance then some v else (unpack v).map fun u => v.take u.sizeEnd
@@ -345,6 +358,14 @@ def newDigestFromProto (f : BareFn) (inst : Str) (p : Option (Str × Int)) : Exc
   match p with
   | none => .error .nilDigest
   | some (hash, size) => newDigest f inst hash size
+
+/-- What the CAS / AC servers do with a request: `GetDigestFunction(e, len(hash))` followed by
+`NewDigestFromProto`. -/
+def mkDigestWithFallback (inst : Str) (e : Int) (hash : Str) (size : Int) : Except Err Str :=
+  if e < 0 then .error .unknownFunction
+  else match getBareFunction e.toNat hash.length with
+    | none => .error .unknownFunction
+    | some f => newDigestFromProto f inst (some (hash, size))
 
 /-! ### ByteStream resource names -/
 
